@@ -466,6 +466,6 @@ def gen_case(r, focus):
 
 def gen_for(focus):
     def gen(r, tier):
-        n = {"quick": 140, "search": 600, "thorough": 3000}[tier]
+        n = {"quick": 140, "search": 600, "thorough": 5000}[tier]
         return [gen_case(r, focus) for _ in range(n)]
     return gen
